@@ -415,7 +415,8 @@ impl ExpandedField<'_> {
             Some(quote!(#[serde(deserialize_with = "graphql_client::serde_with::deserialize_id")]))
         } else if is_id {
             Some(
-                quote!(#[serde(deserialize_with = "graphql_client::serde_with::deserialize_option_id")]),
+                // `default`: with `deserialize_with`, serde no longer treats a missing key as `None`.
+                quote!(#[serde(default, deserialize_with = "graphql_client::serde_with::deserialize_option_id")]),
             )
         } else {
             None
